@@ -4,6 +4,9 @@ CONSTANTS MaxCap = 2
           MaxPend = 3
           MaxMsgs = 5
           FixedWrap = TRUE
-INVARIANTS IndexInRange Refines Bounded NoDup NoLostWakeup NoDupDelivery QueuedNotDelivered
+          ResizeRuns = TRUE
+          GetRefills = TRUE
+          NbReady = TRUE
+INVARIANTS IndexInRange Refines Bounded NoDup NoLostWakeup NoDupDelivery QueuedNotDelivered NoStaleWaiter NotifyRuleOK
 PROPERTY ResizeKeepsSuffix
 VIEW View
